@@ -13,7 +13,7 @@ D(n, t) == [n |-> n, t |-> t]
 
 RECURSIVE Ren(_, _)
 RenComps(cs, p, tag) ==
-  [i \in DOMAIN cs |-> [cs[i] EXCEPT !.n = p \o tag \o ToString(i),
+  [i \in DOMAIN cs |-> [cs[i] EXCEPT !.n = IF cs[i].n = "x" THEN p \o tag \o ToString(i) ELSE cs[i].n,   \* (a given name is kept)
                                      !.t = Ren(cs[i].t, p \o tag \o ToString(i))]]
 Ren(T, p) ==
   CASE IsIoSeq(T) \/ T.k = "OPEN" -> T
@@ -212,6 +212,10 @@ Constructed == <<
   D("L-seq", TSeqOf(TSeq(<<C(I07), O(TBool)>>, FALSE, <<>>), CNone)),
   D("L-ref", TSeqOf(TRef("K-ib"), CNone)),
   D("K-in", TChoice(<<C(Int0), C(TNull)>>, FALSE, <<>>)),
+  \* an alternative named like the component that holds the CHOICE (XER: the same tag opens both)
+  D("Q-samename", TSeq(<<C(I07), Comp("address", TChoice(<<Comp("address", TStr("UTF8", CNone, <<>>), "M"), Comp("geo", Int0, "M")>>, FALSE, <<>>), "M")>>, FALSE, <<>>)),
+  \* an untagged CHOICE nested in a CHOICE, alternatives of different tag classes (canonical order: class before number)
+  D("K-mix", TChoice(<<C(TStr("IA5", R(1, 1), <<>>)), C(TChoice(<<C(TNull), C(TTag("C", 0, "I", I07))>>, FALSE, <<>>))>>, FALSE, <<>>)),
   \* lists of an untagged CHOICE whose alternatives are decoded piecewise (string, constructed)
   D("K-os", TChoice(<<C(TOctets(CNone)), C(TSeq(<<C(I07), O(TBool)>>, FALSE, <<>>))>>, FALSE, <<>>)),
   D("L-os", TSeqOf(TRef("K-os"), CNone)),
@@ -257,6 +261,10 @@ CommonDefs == <<
   D("K-nest", TChoice(<<C(TRef("K-ib")), C(TNull), C(TSeq(<<C(I07)>>, FALSE, <<>>))>>, FALSE, <<>>)),
   D("L-ref", TSeqOf(TRef("K-ib"), CNone)),
   D("K-in", TChoice(<<C(Int0), C(TNull)>>, FALSE, <<>>)),
+  \* an alternative named like the component that holds the CHOICE (XER: the same tag opens both)
+  D("Q-samename", TSeq(<<C(I07), Comp("address", TChoice(<<Comp("address", TStr("UTF8", CNone, <<>>), "M"), Comp("geo", Int0, "M")>>, FALSE, <<>>), "M")>>, FALSE, <<>>)),
+  \* an untagged CHOICE nested in a CHOICE, alternatives of different tag classes (canonical order: class before number)
+  D("K-mix", TChoice(<<C(TStr("IA5", R(1, 1), <<>>)), C(TChoice(<<C(TNull), C(TTag("C", 0, "I", I07))>>, FALSE, <<>>))>>, FALSE, <<>>)),
   \* lists of an untagged CHOICE whose alternatives are decoded piecewise (string, constructed)
   D("K-os", TChoice(<<C(TOctets(CNone)), C(TSeq(<<C(I07), O(TBool)>>, FALSE, <<>>))>>, FALSE, <<>>)),
   D("L-os", TSeqOf(TRef("K-os"), CNone)),
@@ -294,7 +302,7 @@ ModBig == MkMod("VB", "AUTOMATIC", <<
   D("L-bool-big", TSeqOf(TBool, R(1, 65536))) >>)
 BigValues(n) ==
   CASE n = "O-big" -> {Pat(k) : k \in {16383, 16384, 16385, 32768, 65536}}
-    [] n = "Q-extbig" -> {<<Pres(I(7)), Pres(Pat(k))>> : k \in {16383, 16384, 49153}}
+    [] n = "Q-extbig" -> {<<Pres(I(7)), Pres(Pat(k))>> : k \in {16382, 16383, 16384, 32765, 49153}}
     [] n = "L-bool-big" -> {[i \in 1..k |-> i % 3 = 0] : k \in {16384, 65536}}
 
 \* ---- constraint expression trees in the codecs (C09): set arithmetic, serial application,
